@@ -1,30 +1,45 @@
 (* Corr/C19.v — comparison used by the generated cases_C19_*.v files.
-   A case is the list of tasks a streaming run completed (START's pseudo task and every node
-   execution, each with the outcome of its branch conditions, as recorded by the harness's
-   own node and condition functions) together with what the accounting hook
-   (schema/verif_c19_on.go) saw the runner do:
+   A case is the compiled graph of a streaming run (the chanCall of START and of every node:
+   data successors, control successors, branches), the SCHEDULE of the run (the batches of
+   completed tasks in the order taskManager.wait returned them — C03 trace hook — each task with
+   the outcome of its branch conditions as recorded by the harness's own condition functions)
+   and what the accounting hook (schema/verif_c19_on.go) saw the engine do:
      - the sizes n >= 2 of the StreamReader.Copy(n) calls issued by compose.copyItem from
        resolveCompletedTasks (sorted ascending),
      - the number of outermost StreamReader.Close calls issued directly by
-       resolveCompletedTasks and by channelManager.updateValues.
-   The model recomputes these from the tasks alone.  Completion order inside a superstep is
-   not an observable of the property, hence the multiset comparison. *)
-From Eino Require Import Base.Util Model.StreamAcct.
+       resolveCompletedTasks, channelManager.updateValues, dagChannel.reportValues and
+       dagChannel.reportSkip,
+     - the sizes of the mergeValues calls of channel.get (sorted),
+     - the nodes whose function was entered (sorted).
+   The model recomputes all of these from graph + schedule, twice:
+     (a) task by task with [account_task] (Model/StreamAcct.v — the definitions of the step theorems),
+     (b) with the run-loop model [run] (Model/StreamRun.v — the definitions of the run theorems),
+   and checks on the run's final state what the run theorem concludes: the run ended Done with
+   nothing else scheduled, every node ran or was skipped, and the only live handle is the output.
+   Completion order inside a superstep is not an observable of the property, hence the multiset
+   comparisons. *)
+From Eino Require Import Base.Util Model.StreamAcct Model.StreamRun.
 Open Scope N_scope.
 
 Record ccase := {
-  c_tasks : list task;
+  c_graph : graph;
+  c_sched : list batch;
   c_copies : list Z;          (* observed, sorted ascending *)
   c_resolve_closes : nat;     (* observed *)
-  c_update_closes : nat;      (* observed *)
+  c_update_closes : nat;
+  c_chan_closes : nat;
+  c_skip_closes : nat;
+  c_merges : list nat;        (* observed, sorted *)
+  c_fired : list key;         (* observed, sorted *)
 }.
 
-Definition mkT (n : key) (w : list key) (bs : list branch) : task :=
-  {| t_node := n; t_write_to := w; t_branches := bs |}.
-Definition mkB (nodata : bool) (ends sel : list key) : branch :=
-  {| b_nodata := nodata; b_ends := ends; b_sel := sel |}.
-Definition mkC (ts : list task) (cp : list Z) (rc uc : nat) : ccase :=
-  {| c_tasks := ts; c_copies := cp; c_resolve_closes := rc; c_update_closes := uc |}.
+Definition mkc (w c : list key) (bs : list bdecl) : call := {| c_write_to := w; c_controls := c; c_branches := bs |}.
+Definition mkbd (nodata : bool) (ends : list key) : bdecl := {| bd_nodata := nodata; bd_ends := ends |}.
+Definition mkR (dag eager : bool) (calls : list (key * call)) (sched : list batch)
+               (cp : list Z) (rc uc cc sc : nat) (mg : list nat) (fired : list key) : ccase :=
+  {| c_graph := {| g_dag := dag; g_eager := eager; g_calls := calls |}; c_sched := sched;
+     c_copies := cp; c_resolve_closes := rc; c_update_closes := uc; c_chan_closes := cc; c_skip_closes := sc;
+     c_merges := mg; c_fired := fired |}.
 
 Fixpoint zlist_eqb (a b : list Z) : bool :=
   match a, b with
@@ -32,8 +47,27 @@ Fixpoint zlist_eqb (a b : list Z) : bool :=
   | x :: a', y :: b' => Z.eqb x y && zlist_eqb a' b'
   | _, _ => false
   end.
+Fixpoint natlist_eqb (a b : list nat) : bool :=
+  match a, b with
+  | [], [] => true
+  | x :: a', y :: b' => Nat.eqb x y && natlist_eqb a' b'
+  | _, _ => false
+  end.
+Fixpoint nlist_eqb (a b : list N) : bool :=
+  match a, b with
+  | [], [] => true
+  | x :: a', y :: b' => N.eqb x y && nlist_eqb a' b'
+  | _, _ => false
+  end.
 
+(* ---- (a) task by task *)
 Record prediction := { p_copies : list Z; p_resolve_closes : nat; p_update_closes : nat; p_balanced : bool }.
+
+Definition tasks_of (g : graph) (sched : list batch) : res (list task) :=
+  res_mapM (fun ko => match call_of g (fst ko) with
+                      | Some c => mk_task (fst ko) c (snd ko)
+                      | None => Err E_BAD_SCHEDULE
+                      end) (List.concat sched).
 
 Definition predict (ts : list task) : res prediction :=
   do accts <- res_mapM account_task ts;
@@ -42,12 +76,44 @@ Definition predict (ts : list task) : res prediction :=
         p_update_closes := fold_right Nat.add 0%nat (map a_update_closes accts);
         p_balanced := forallb balanced accts |}.
 
-Definition bad (c : ccase) : bool :=
-  match predict (c_tasks c) with
+Definition bad_tasks (c : ccase) : bool :=
+  match (do ts <- tasks_of (c_graph c) (c_sched c); predict ts) with
   | Ok p => negb (zlist_eqb (p_copies p) (c_copies c)
                   && Nat.eqb (p_resolve_closes p) (c_resolve_closes c)
                   && Nat.eqb (p_update_closes p) (c_update_closes c)
                   && p_balanced p)
   | _ => true
   end.
+
+(* ---- (b) the run *)
+Definition bad_run (c : ccase) : bool :=
+  let g := c_graph c in
+  match run g (c_sched c) with
+  | Ok (Done out dropped st) =>
+      let l := rs_log st in
+      negb (zlist_eqb (sort_by Z.ltb (s_log (rs_store st))) (c_copies c)
+            && Nat.eqb (l_resolve_closes l) (c_resolve_closes c)
+            && Nat.eqb (l_update_closes l) (c_update_closes c)
+            && Nat.eqb (l_chan_closes l) (c_chan_closes c)
+            && Nat.eqb (l_skip_closes l) (c_skip_closes c)
+            && natlist_eqb (sort_by Nat.ltb (l_merges l)) (c_merges c)
+            && nlist_eqb (sort_by N.ltb (filter (fun k => negb (N.eqb k kEND)) (l_fired l))) (c_fired c)
+            (* the hypothesis and the conclusion of the run theorem on this run *)
+            && match dropped with [] => true | _ => false end
+            && nlist_eqb (rs_pending st) [kEND]
+            && (negb (g_dag g) || all_finished g st)
+            && nlist_eqb (s_open (rs_store st)) [out])
+  | _ => true
+  end.
+
+Definition bad (c : ccase) : bool := bad_tasks c || bad_run c.
 Definition mismatches (cs : list ccase) : list nat := mismatches_from bad 0 cs.
+
+(* for debugging a replay: what the run model computed *)
+Definition run_view (c : ccase) :=
+  match run (c_graph c) (c_sched c) with
+  | Ok (Done out dropped st) => Ok (true, out, dropped, s_open (rs_store st), s_log (rs_store st), rs_log st, rs_pending st, rs_resolved st)
+  | Ok (Running st) => Ok (false, 0, [], s_open (rs_store st), s_log (rs_store st), rs_log st, rs_pending st, rs_resolved st)
+  | Err e => Err e
+  | Panic => Panic
+  end.
